@@ -202,8 +202,14 @@ def strand_semantics(repo: Repo, rep: Report) -> None:
         try:
             bad = None
             total = 0
-            for H, W in ((1, 1), (1, 2), (2, 1), (2, 2)):  # wide and tall lattices: the node numbering uses width as the row stride
-                inst = Instance(repo, prim=prim)
+            fresh_graphs: Dict[Tuple[int, int], Any] = {}
+            shared_world = None
+            # every frame in a fresh interpreter state, then the same frames again one after the other in ONE state (a wide frame, its
+            # transpose with the same number of nodes, ...): what an earlier call left behind must not change the split graph
+            for H, W, shared in ((1, 1, False), (1, 2, False), (2, 1, False), (2, 2, False), (1, 2, True), (2, 1, True), (2, 2, True), (1, 2, True)):
+                inst = Instance(repo, prim=prim, world=shared_world if shared else None)
+                if shared and shared_world is None:
+                    shared_world = inst.w
                 fr = inst.w.cw.new("BoolGridFrame", inst.s, H, W)
                 captured: List[Any] = []
                 orig = inst.w.cw.genv["active_vertices_connected"]
@@ -219,6 +225,15 @@ def strand_semantics(repo: Repo, rep: Report) -> None:
                     bad = f"{H}x{W} frame: expected one call active_vertices_connected(solver, <node list>, graph=<split graph>), saw {len(captured)}"
                     break
                 gv, g, kw = captured[0]
+                if shared:
+                    sig = (g.attrs["num_vertices"], [tuple(e) for e in g.attrs["edges"]])
+                    if sig != fresh_graphs.get((H, W)):
+                        bad = (f"{H}x{W} frame evaluated after other frames in the same interpreter state: the split graph handed to the connectivity "
+                               f"constraint has {sig[0]} nodes and edges {sig[1][:6]}..., but {fresh_graphs[(H, W)][0]} nodes and edges "
+                               f"{fresh_graphs[(H, W)][1][:6]}... when the frame is evaluated first: state carried over from an earlier call")
+                        break
+                    continue
+                fresh_graphs[(H, W)] = (g.attrs["num_vertices"], [tuple(e) for e in g.attrs["edges"]])
                 passed, cross = ret
                 h, w = H + 1, W + 1
                 hz = [v.attrs["id"] for v in fr.attrs["horizontal"].attrs["data"]]
